@@ -44,6 +44,19 @@ def r6_1(F, R):
                     called.add(ev[1].split("::")[-1])
             if p.end[0] == "return" and p.ret and p.ret[0] == "agg":
                 rets.add(p.ret[4])
+        # `N::checked_mul(lhs, rhs).ok_or_else(|| ..)`: the returned Result is the operation's Option mapped Some -> Ok, None -> Err
+        mapped = False
+        from ..cfg import Defs as _Defs
+        _D = _Defs(fn)
+        for bi, tt in fn.calls():
+            if strip_generics(callee_name(tt) or "").split("::")[-1] in ("ok_or", "ok_or_else") and not tt["dest"]["p"] and tt["dest"]["l"] == 0 and tt.get("args"):
+                src = _D.resolve_place(tt["args"][0])
+                d0 = _D.single(src["l"]) if src is not None and not src["p"] else None
+                if d0 and d0[0] == "call" and strip_generics(callee_name(d0[3]) or "").endswith("Number::" + meth):
+                    mapped = True
+        if mapped:
+            rets |= {"Ok", "Err"}
+            called.add(meth)
         # which operation produces the Ok value
         loc = "%s:%d" % (fn.file, fn.line)
         ok = meth in called and ("Err" in rets) == can_err and "Ok" in rets
